@@ -77,7 +77,8 @@ def vhostOrder (c : Ctx) (m : Mesh) : List MeshSvc :=
   ++ sortSvcsByHost (on.filter (fun s => !hasWrapper c m.vss s))
 
 def svcDomains (c : Ctx) (m : Mesh) (s : MeshSvc) : List String × List String :=
-  generateVirtualHostDomains { hostname := s.host, aliases := s.aliases, addresses := if s.addr == "" then [] else [s.addr] }
+  generateVirtualHostDomains { hostname := s.host, aliases := s.aliases, addresses := (s.addr :: s.moreAddrs).filter (· != ""),
+                                passthroughKube := s.headless }
     c.listenPort c.listenPort m.proxyDomain false
 
 def svcInput (c : Ctx) (m : Mesh) (s : MeshSvc) : VHInput :=
